@@ -843,6 +843,7 @@ func (s *Sim) Run(main func()) {
 	s.GoNode(0, "main", main)
 	idleSpins := 0
 	sinceIdle := 0
+	idAtWindow := int64(0)
 	quantum := time.Millisecond
 	spinSteps := s.cfg.SpinSteps
 	if spinSteps == 0 {
@@ -899,6 +900,7 @@ func (s *Sim) Run(main func()) {
 			}
 			s.Idles++
 			sinceIdle = 0
+			idAtWindow = s.nextID
 			quantum = time.Millisecond
 			tm := time.NewTimer(wait)
 			select {
@@ -910,10 +912,16 @@ func (s *Sim) Run(main func()) {
 		}
 		idleSpins = 0
 		sinceIdle++
+		if sinceIdle >= spinSteps && s.nextID != idAtWindow {
+			// tasks were created in this window: the system is making progress, it just never idles
+			sinceIdle = 0
+			idAtWindow = s.nextID
+		}
 		if sinceIdle >= spinSteps {
 			// Busy-waiting code never lets the system go idle, so the simulated clock would
 			// stand still for ever. Spinning takes time in the real world: let some pass.
 			sinceIdle = 0
+			idAtWindow = s.nextID
 			s.ForcedAdvances++
 			time.Sleep(quantum)
 			if quantum < 5*time.Second {
